@@ -41,6 +41,27 @@ func c08Gen(t *rapid.T) c08Case {
 	n := rapid.IntRange(1, maxReqs).Draw(t, "nreq")
 	names := docs.SingleKeyNames()
 	var cs ClientSpec
+	if !small && rapid.IntRange(0, 11).Draw(t, "manytiny") == 0 {
+		// more than a thousand complete tiny requests in one segment (one read of the proxy holds them all)
+		cnt := rapid.SampledFrom([]int{1023, 1024, 1025, 1100, 2049, 3000}).Draw(t, "tinycount")
+		mix := rapid.IntRange(0, 2).Draw(t, "tinymix")
+		for ri := 0; ri < cnt; ri++ {
+			if mix == 0 || (mix == 2 && ri%4 != 0) {
+				cs.Reqs = append(cs.Reqs, Req{Name: Bin("PING")})
+			} else {
+				cs.Reqs = append(cs.Reqs, Req{Name: Bin("get"), Args: []Bin{Bin(fmt.Sprintf("t%d", ri))}})
+			}
+		}
+		if rapid.Bool().Draw(t, "tinycut") {
+			total := 0
+			for i := range cs.Reqs {
+				total += len(cs.Reqs[i].Encode())
+			}
+			cs.Cuts = []int{rapid.IntRange(1, total-1).Draw(t, "tinycutat")}
+		}
+		c.Spec.Clients = []ClientSpec{cs}
+		return c
+	}
 	for ri := 0; ri < n; ri++ {
 		var r Req
 		switch rapid.IntRange(0, 9).Draw(t, "kind") {
@@ -144,6 +165,10 @@ func c08Classify(c *c08Case) (bool, []string) {
 	}
 	if len(c.Spec.Abandoned) > 0 {
 		cls = append(cls, "after-clients-that-left-mid-request")
+	}
+	if len(c.Spec.Clients[0].Reqs) > 1000 {
+		cls = append(cls, "over-a-thousand-requests-in-one-segment")
+		inside += 2
 	}
 	return inside >= 2 || (inside >= 1 && c.PrefixAt > 0), cls
 }
